@@ -229,7 +229,11 @@ func pointDegree(context *api.Context, point b6.Feature) (int, error) {
 
 // Return the length of the given path in meters.
 func pathLengthMeters(context *api.Context, path b6.Geometry) (float64, error) {
-	return b6.AngleToMeters(path.Polyline().Length()), nil
+	polyline, err := polylineOf("length", path)
+	if err != nil {
+		return 0.0, err
+	}
+	return b6.AngleToMeters(polyline.Length()), nil
 }
 
 type pathPointCollection struct {
